@@ -22,6 +22,138 @@ def callee_is_local(term):
     return bool(f['res_local']) if f['res'] else False
 
 
+# ---- private field names are not anchors ----------------------------------------------------------------------------
+# Rules refer to the fields of the crate's data types by role names (the names they have at the pinned commit).  Fields that are
+# not visible outside the crate can be renamed freely by a maintainer, so their role is re-discovered on every run from the
+# field's type, with declaration order as the tie-break among same-typed fields, and the facts are rewritten to the role names.
+# Public fields are API and keep their names.  (type name -> [(role name, predicate on the field's type)])
+def _is(*subs):
+    return lambda ty: all(x in ty for x in subs)
+
+
+FIELD_ROLES = {
+    'CommitmentOpening': [('v', lambda ty: ty == 'u64'), ('r', _is('Vec<', 'Scalar'))],
+    'ExtendedMask': [('blindings', _is('Vec<', 'Scalar'))],
+    'RangeParameters': [('bp_gens', _is('BulletproofGens<')), ('pc_gens', _is('PedersenGens<'))],
+    'BulletproofGens': [('g_vec', _is('Vec<std::vec::Vec<')), ('h_vec', _is('Vec<std::vec::Vec<')), ('precomp', _is('Arc<'))],
+    'RangeProof': [('a', lambda ty: 'Compressed' in ty and 'Vec<' not in ty), ('a1', lambda ty: 'Compressed' in ty and 'Vec<' not in ty),
+                   ('b', lambda ty: 'Compressed' in ty and 'Vec<' not in ty), ('r1', lambda ty: ty.endswith('Scalar') and 'Vec<' not in ty),
+                   ('s1', lambda ty: ty.endswith('Scalar') and 'Vec<' not in ty), ('d1', _is('Vec<', 'Scalar')), ('li', _is('Vec<', 'Compressed')),
+                   ('ri', _is('Vec<', 'Compressed')), ('extension_degree', _is('ExtensionDegree'))],
+    'RangeProofTranscript': [('transcript', _is('merlin::Transcript')), ('bytes', _is('Option<')), ('transcript_rng', _is('TranscriptRng')),
+                             ('external_rng', lambda ty: ty.startswith('&') and 'Transcript' not in ty), ('_phantom', _is('PhantomData'))],
+    'GeneratorsChain': [('reader', lambda ty: 'PhantomData' not in ty), ('_phantom', _is('PhantomData'))],
+    'AggregatedGensIter': [('array', _is('Vec<')), ('n', lambda ty: ty == 'usize'), ('m', lambda ty: ty == 'usize'),
+                           ('party_idx', lambda ty: ty == 'usize'), ('gen_idx', lambda ty: ty == 'usize')],
+}
+
+
+def field_renames(adts):
+    """{adt path: {actual field name: role name}} for non-public fields whose actual name differs from the role name"""
+    out = {}
+    for a in adts:
+        roles = FIELD_ROLES.get(a['path'].split('::')[-1])
+        if not roles or len(a['variants']) != 1:
+            continue
+        fields = [f for f in a['variants'][0]['fields'] if f.get('vis') != 'Public']
+        taken, m = set(), {}
+        for role, pred in roles:
+            for f in fields:
+                if f['name'] not in taken and pred(f['ty']):
+                    taken.add(f['name'])
+                    if f['name'] != role:
+                        m[f['name']] = role
+                    break
+        # a role name still worn by a *different* field would collide: leave that type alone (rules then fail closed)
+        if m and not (set(m.values()) & {f['name'] for f in a['variants'][0]['fields'] if f['name'] not in m}):
+            out[a['path']] = m
+    return out
+
+
+def _strip_ref(ty):
+    ty = ty.strip()
+    while True:
+        for p in ('&mut ', '&', 'std::boxed::Box<'):
+            if ty.startswith(p):
+                ty = ty[len(p):]
+                if p.endswith('<') and ty.endswith('>'):
+                    ty = ty[:-1]
+                break
+        else:
+            return ty.strip()
+        # lifetimes:  &'a T
+        if ty.startswith("'"):
+            ty = ty.split(' ', 1)[1] if ' ' in ty else ty
+
+
+def _elem_ty(ty):
+    ty = _strip_ref(ty)
+    for p in ('std::vec::Vec<', 'zeroize::Zeroizing<'):
+        if ty.startswith(p) and ty.endswith('>'):
+            return ty[len(p):-1]
+    if ty.startswith('[') and ty.endswith(']'):
+        inner = ty[1:-1]
+        return inner.rsplit(';', 1)[0].strip() if ';' in inner else inner
+    return ty
+
+
+def apply_field_renames(j, ren):
+    """rewrite ADT definitions, aggregate field lists and field projections of the facts in place"""
+    if not ren:
+        return 0
+    by_last = {}
+    for path, m in ren.items():
+        by_last[path] = m
+    n = 0
+    for a in j['adts']:
+        m = ren.get(a['path'])
+        if m:
+            for f in a['variants'][0]['fields']:
+                if f['name'] in m:
+                    f['name'] = m[f['name']]
+                    n += 1
+
+    def adt_of(ty):
+        base = _strip_ref(ty).split('<', 1)[0]
+        return ren.get(base)
+
+    def fix_place(p, locals_):
+        nonlocal n
+        cur = locals_[p['l']]['ty'] if p['l'] < len(locals_) else ''
+        for e in p['p']:
+            k = e['k']
+            if k == 'deref':
+                cur = _strip_ref(cur)
+            elif k == 'field':
+                m = adt_of(cur)
+                if m and e.get('name') in m:
+                    e['name'] = m[e['name']]
+                    n += 1
+                cur = e.get('ty', '')
+            elif k in ('index', 'constant_index', 'subslice'):
+                cur = _elem_ty(cur) if k != 'subslice' else cur
+            # downcast / opaque casts keep the type
+
+    def walk(x, locals_):
+        nonlocal n
+        if isinstance(x, dict):
+            if 'l' in x and 'p' in x and isinstance(x['p'], list):
+                fix_place(x, locals_)
+            if x.get('k') == 'aggregate' and isinstance(x.get('kind'), dict) and x['kind'].get('a') == 'adt':
+                m = ren.get(x['kind'].get('path'))
+                if m:
+                    x['kind']['fields'] = [m.get(f, f) for f in x['kind']['fields']]
+                    n += 1
+            for v in x.values():
+                walk(v, locals_)
+        elif isinstance(x, list):
+            for v in x:
+                walk(v, locals_)
+    for f in j['fns']:
+        walk(f['blocks'], f['locals'])
+    return n
+
+
 class Body:
     def __init__(self, j):
         self.j = j
@@ -64,6 +196,10 @@ class Body:
 class Facts:
     def __init__(self, path):
         self.j = json.load(open(path))
+        self.field_renames = field_renames(self.j['adts'])
+        self.fields_renamed = apply_field_renames(self.j, self.field_renames)
+        from . import inline
+        self.inlined = inline.inline_new_helpers(self.j)
         self.bodies = [Body(f) for f in self.j['fns']]
         self.fn = {}
         self.promoted = {}
@@ -104,8 +240,26 @@ class Facts:
         return hits[0] if len(hits) == 1 else None
 
     def closures_of(self, body):
+        """closure bodies created by this body (and, transitively, by those closures): found from the closure aggregates in the
+        blocks, so that closures of a helper spliced into this body count as its own"""
+        out, seen, work = [], set(), [body]
+        while work:
+            b = work.pop()
+            for blk in b.blocks:
+                for s in blk['stmts']:
+                    if s['k'] == 'assign' and s['rv']['k'] == 'aggregate' and s['rv']['kind'].get('a') == 'closure':
+                        c = self.fn.get(s['rv']['kind']['path'])
+                        if c is not None and c.key not in seen:
+                            seen.add(c.key)
+                            out.append(c)
+                            work.append(c)
+        # closures without captures are not aggregates but zero-sized constants: fall back on the path prefix for those
         pre = body.path + '::{closure'
-        return [b for p, b in self.fn.items() if p.startswith(pre)]
+        for p, b in self.fn.items():
+            if p.startswith(pre) and b.key not in seen:
+                seen.add(b.key)
+                out.append(b)
+        return out
 
     def root_fn(self, body):
         """outermost non-closure ancestor of a (closure) body"""
@@ -126,8 +280,7 @@ class Facts:
                     out.append((bb, self.fn[n]))
         if include_closures:
             for c in self.closures_of(body):
-                if c.parent == body.path:
-                    out.append((None, c))
+                out.append((None, c))
         return out
 
     def reachable_from(self, roots):
